@@ -81,16 +81,19 @@ def lastFr (pf : Bool) : List Blk → Bool
   | nil => rfl
   | cons a A ih => simp [ih]
 
-theorem chainOK_append (A B : List Blk) (ps : Nat) (pf : Bool) :
-    ChainOK ps pf (A ++ B) ↔ ChainOK ps pf A ∧ ChainOK (lastSz ps A) (lastFr pf A) B := by
-  induction A generalizing ps pf with
+theorem chainOK_append (A B : List Blk) (c ps : Nat) (pf : Bool) :
+    ChainOK c ps pf (A ++ B) ↔ ChainOK c ps pf A ∧ ChainOK (c + total A) (lastSz ps A) (lastFr pf A) B := by
+  induction A generalizing c ps pf with
   | nil => simp [ChainOK]
-  | cons a A ih => simp [ChainOK, ih, and_assoc]
+  | cons a A ih =>
+    have e : c + HDR + a.size + total A = c + (HDR + a.size + total A) := by omega
+    simp [ChainOK, ih, and_assoc, e]
 
 /-- the suffix after a rewritten segment: its head gets the new predecessor size -/
-theorem chainOK_setPrevHd {a v : Nat} {f f' : Bool} {R : List Blk}
-    (h : ChainOK a f R) (hf : f' = true → f = true ∨ ∀ y ∈ R.head?, y.free = false) :
-    ChainOK v f' (setPrevHd v R) := by
+theorem chainOK_setPrevHd {c c' a v : Nat} {f f' : Bool} {R : List Blk}
+    (h : ChainOK c a f R) (hcc : c' = c) (hf : f' = true → f = true ∨ ∀ y ∈ R.head?, y.free = false) :
+    ChainOK c' v f' (setPrevHd v R) := by
+  subst hcc
   cases R with
   | nil => simp [setPrevHd, ChainOK]
   | cons y R =>
@@ -101,17 +104,6 @@ theorem chainOK_setPrevHd {a v : Nat} {f f' : Bool} {R : List Blk}
     rcases hf hf' with h | h
     · exact h2 ⟨h, hy⟩
     · simp [hy] at h
-
-/-- offsets of blocks in a well-formed chain are multiples of ALIGN -/
-theorem chainOK_total_align {ps : Nat} {pf : Bool} {l : List Blk} (h : ChainOK ps pf l) : total l % ALIGN = 0 := by
-  induction l generalizing ps pf with
-  | nil => simp
-  | cons a l ih =>
-    simp only [ChainOK] at h
-    have := ih h.2.2.2.2
-    have h3 := h.2.2.1
-    simp only [total_cons, ALIGN, HDR] at *
-    omega
 
 /-! ### freeOffs / liveOffs -/
 
@@ -397,15 +389,16 @@ theorem seg_FL {P mid mid' R R' : List Blk} {xf : List (List Nat)}
 
 /-! ### WF and segment replacement -/
 
-theorem chainOK_weaken {ps : Nat} {pf pf' : Bool} {l : List Blk} (h : ChainOK ps pf l) (hf : pf' = true → pf = true) :
-    ChainOK ps pf' l := by
+theorem chainOK_weaken {c c' ps : Nat} {pf pf' : Bool} {l : List Blk} (h : ChainOK c ps pf l) (hcc : c' = c)
+    (hf : pf' = true → pf = true) : ChainOK c' ps pf' l := by
+  subst hcc
   cases l with
   | nil => trivial
   | cons a l =>
     simp only [ChainOK] at h ⊢
     exact ⟨h.1, fun ⟨a1, a2⟩ => h.2.1 ⟨hf a1, a2⟩, h.2.2⟩
 
-theorem WF_iff (s : Xma) : WF s ↔ total s.blks = s.zone ∧ ChainOK 0 false s.blks ∧
+theorem WF_iff (s : Xma) : WF s ↔ total s.blks = s.zone ∧ ChainOK 0 0 false s.blks ∧
     FLInv s.xfree (fun o sz => (o, sz) ∈ freeOffs 0 s.blks) := by
   constructor
   · intro h; exact ⟨h.tile, h.chain, h.len, h.nodup, h.mem⟩
@@ -413,8 +406,8 @@ theorem WF_iff (s : Xma) : WF s ↔ total s.blks = s.zone ∧ ChainOK 0 false s.
 
 theorem seg_WF {s : Xma} {P mid mid' R R' : List Blk} (h : WF s) (hb : s.blks = P ++ (mid ++ R))
     (ht : total mid' = total mid) (htR : total R' = total R) (hR : ∀ c, freeOffs c R' = freeOffs c R)
-    (hc : ChainOK 0 false P → ChainOK (lastSz 0 P) (lastFr false P) (mid ++ R) →
-          ChainOK (lastSz 0 P) (lastFr false P) (mid' ++ R')) :
+    (hc : ChainOK 0 0 false P → ChainOK (total P) (lastSz 0 P) (lastFr false P) (mid ++ R) →
+          ChainOK (total P) (lastSz 0 P) (lastFr false P) (mid' ++ R')) :
     WF { s with blks := P ++ (mid' ++ R'),
                 xfree := attachAll (detachAll s.xfree (freeOffs (total P) mid)) (freeOffs (total P) mid') } := by
   rw [WF_iff] at h ⊢
@@ -423,7 +416,7 @@ theorem seg_WF {s : Xma} {P mid mid' R R' : List Blk} (h : WF s) (hb : s.blks = 
   refine ⟨?_, ?_, ?_⟩
   · simp at h1 ⊢; omega
   · rw [chainOK_append] at h2 ⊢
-    exact ⟨h2.1, hc h2.1 h2.2⟩
+    exact ⟨h2.1, by simpa using hc h2.1 (by simpa using h2.2)⟩
   · rw [← List.append_assoc] at h3 ⊢
     exact seg_FL h3 ht hR
 
@@ -506,7 +499,7 @@ theorem takeWhole_wf {s : Xma} {o : Nat} {rp : List Blk} {b : Blk} {q : List Blk
     h hb (by simp) rfl (fun _ => rfl) (by
       intro _ hc
       simp only [List.cons_append, List.nil_append, ChainOK] at hc ⊢
-      exact ⟨hc.1, by simp, hc.2.2.1, hc.2.2.2.1, chainOK_weaken hc.2.2.2.2 (by simp)⟩)
+      exact ⟨hc.1, by simp, hc.2.2.1, hc.2.2.2.1, chainOK_weaken hc.2.2.2.2 rfl (by simp)⟩)
   simpa [freeOffs_cons, hbf, ho, takeWhole, plug] using this
 
 
@@ -522,10 +515,10 @@ theorem takeSplit_wf {s : Xma} {size o : Nat} {rp : List Blk} {b : Blk} {q : Lis
       intro _ hc
       simp only [List.cons_append, List.nil_append, ChainOK] at hc ⊢
       obtain ⟨c1, c2, c3, c4, c5⟩ := hc
-      refine ⟨c1, by simp, hs1, hs2, trivial, by simp, ?_, ?_, ?_⟩
+      refine ⟨c1, by simp, c3, hs2, trivial, by simp, ?_, ?_, ?_⟩
       · simp only [FBLKMIN, HDR, MINALLOC, ALIGN] at *; omega
       · simp only [FBLKMIN, HDR, MINALLOC, ALIGN] at *; omega
-      · exact chainOK_setPrevHd c5 (fun _ => Or.inl hbf))
+      · exact chainOK_setPrevHd c5 (by simp only [FBLKMIN, HDR, MINALLOC] at *; omega) (fun _ => Or.inl hbf))
   simpa [freeOffs_cons, hbf, ho, takeSplit, plug] using this
 
 theorem takeBlk_wf {s : Xma} {size o : Nat} {rp : List Blk} {b : Blk} {q : List Blk} (h : WF s)
@@ -708,8 +701,9 @@ theorem alloc_wf' {s s' : Xma} {n : Nat} {r : Option Nat} (h : WF s) (ha : alloc
 
 /-! ### free -/
 
-theorem chainOK_of_head_notfree {ps : Nat} {pf pf' : Bool} {l : List Blk} (h : ChainOK ps pf l)
-    (hh : ∀ y ∈ l.head?, y.free = false) : ChainOK ps pf' l := by
+theorem chainOK_of_head_notfree {c c' ps : Nat} {pf pf' : Bool} {l : List Blk} (h : ChainOK c ps pf l) (hcc : c' = c)
+    (hh : ∀ y ∈ l.head?, y.free = false) : ChainOK c' ps pf' l := by
+  subst hcc
   cases l with
   | nil => trivial
   | cons a l =>
@@ -746,7 +740,7 @@ theorem freeA_wf {s : Xma} {o : Nat} {rp' : List Blk} {x b y : Blk} {q' : List B
       refine ⟨c1, c2, ?_, ?_, ?_⟩
       · simp only [HDR, ALIGN] at *; omega
       · omega
-      · exact chainOK_setPrevHd c13 (fun _ => Or.inl hyf))
+      · exact chainOK_setPrevHd c13 (by simp only [FBLKMIN, HDR, MINALLOC] at *; omega) (fun _ => Or.inl hyf))
   have e1 : o - (HDR + b.prev) = total rp'.reverse := by simp at ho; omega
   have e2 : o + HDR + b.size = total rp'.reverse + HDR + x.size + HDR + b.size := by simp at ho; omega
   rw [e1, e2]
@@ -770,7 +764,7 @@ theorem freeB_wf {s : Xma} {o : Nat} {rp : List Blk} {b y : Blk} {q' : List Blk}
       refine ⟨c1, by simp [hpf], ?_, ?_, ?_⟩
       · simp only [HDR, ALIGN] at *; omega
       · omega
-      · exact chainOK_setPrevHd c9 (fun _ => Or.inl hyf))
+      · exact chainOK_setPrevHd c9 (by simp only [FBLKMIN, HDR, MINALLOC] at *; omega) (fun _ => Or.inl hyf))
   subst ho
   simpa [freeOffs_cons, hbf, hyf, plug] using key
 
@@ -796,7 +790,7 @@ theorem freeC_wf {s : Xma} {o : Nat} {rp' : List Blk} {x b : Blk} {q : List Blk}
       refine ⟨c1, c2, ?_, ?_, ?_⟩
       · simp only [HDR, ALIGN] at *; omega
       · omega
-      · exact chainOK_setPrevHd c9 (fun _ => Or.inr hq))
+      · exact chainOK_setPrevHd c9 (by simp only [FBLKMIN, HDR, MINALLOC] at *; omega) (fun _ => Or.inr hq))
   have e1 : o - (HDR + b.prev) = total rp'.reverse := by simp at ho; omega
   rw [e1]
   simpa [freeOffs_cons, hbf, hxf, plug] using key
@@ -812,7 +806,7 @@ theorem freeD_wf {s : Xma} {o : Nat} {rp : List Blk} {b : Blk} {q : List Blk} (h
       intro _ hc
       simp only [List.cons_append, List.nil_append, ChainOK] at hc ⊢
       obtain ⟨c1, c2, c3, c4, c5⟩ := hc
-      exact ⟨c1, by simp [hpf], c3, c4, chainOK_of_head_notfree c5 hq⟩)
+      exact ⟨c1, by simp [hpf], c3, c4, chainOK_of_head_notfree c5 rfl hq⟩)
   subst ho
   simpa [freeOffs_cons, hbf, plug] using key
 
@@ -885,7 +879,7 @@ theorem growSplit_wf {s : Xma} {o size : Nat} {rp : List Blk} {b nb : Blk} {q' :
       · omega
       · simp only [FBLKMIN, HDR, MINALLOC, ALIGN] at *; omega
       · simp only [FBLKMIN, HDR, MINALLOC, ALIGN] at *; omega
-      · exact chainOK_setPrevHd c9 (fun _ => Or.inl hnf))
+      · exact chainOK_setPrevHd c9 (by simp only [FBLKMIN, HDR, MINALLOC] at *; omega) (fun _ => Or.inl hnf))
   subst ho
   simpa [freeOffs_cons, hbf, hnf, plug] using key
 
@@ -905,7 +899,7 @@ theorem growWhole_wf {s : Xma} {o : Nat} {rp : List Blk} {b nb : Blk} {q' : List
       refine ⟨c1, by simp [hbf], ?_, ?_, ?_⟩
       · simp only [HDR, ALIGN] at *; omega
       · omega
-      · exact chainOK_setPrevHd c9 (fun hh => by simp [hbf] at hh))
+      · exact chainOK_setPrevHd c9 (by simp only [FBLKMIN, HDR, MINALLOC] at *; omega) (fun hh => by simp [hbf] at hh))
   subst ho
   simpa [freeOffs_cons, hbf, hnf, plug] using key
 
@@ -926,10 +920,10 @@ theorem shrinkMerge_wf {s : Xma} {o size : Nat} {rp : List Blk} {b nb : Blk} {q'
       intro _ hc
       simp only [List.cons_append, List.nil_append, ChainOK] at hc ⊢
       obtain ⟨c1, c2, c3, c4, c5, c6, c7, c8, c9⟩ := hc
-      refine ⟨c1, by simp [hbf], hs1, hs2, trivial, by simp [hbf], ?_, ?_, ?_⟩
+      refine ⟨c1, by simp [hbf], c3, hs2, trivial, by simp [hbf], ?_, ?_, ?_⟩
       · simp only [FBLKMIN, HDR, MINALLOC, ALIGN] at *; omega
       · simp only [FBLKMIN, HDR, MINALLOC, ALIGN] at *; omega
-      · exact chainOK_setPrevHd c9 (fun _ => Or.inl hnf))
+      · exact chainOK_setPrevHd c9 (by simp only [FBLKMIN, HDR, MINALLOC] at *; omega) (fun _ => Or.inl hnf))
   subst ho
   simpa [freeOffs_cons, hbf, hnf, plug] using key
 
@@ -950,10 +944,10 @@ theorem shrinkSplit_wf {s : Xma} {o size : Nat} {rp : List Blk} {b : Blk} {q : L
       intro _ hc
       simp only [List.cons_append, List.nil_append, ChainOK] at hc ⊢
       obtain ⟨c1, c2, c3, c4, c5⟩ := hc
-      refine ⟨c1, by simp [hbf], hs1, hs2, trivial, by simp [hbf], ?_, ?_, ?_⟩
+      refine ⟨c1, by simp [hbf], c3, hs2, trivial, by simp [hbf], ?_, ?_, ?_⟩
       · simp only [FBLKMIN, HDR, MINALLOC, ALIGN] at *; omega
       · simp only [FBLKMIN, HDR, MINALLOC, ALIGN] at *; omega
-      · exact chainOK_setPrevHd c5 (fun _ => Or.inr hq))
+      · exact chainOK_setPrevHd c5 (by simp only [FBLKMIN, HDR, MINALLOC] at *; omega) (fun _ => Or.inr hq))
   subst ho
   simpa [freeOffs_cons, hbf, plug] using key
 
@@ -1052,8 +1046,26 @@ theorem realloc_wf' {s s' : Xma} {o n : Nat} {r : Option Nat} (h : WF s) (hr : r
           obtain ⟨_, rfl⟩ := hr
           exact free_wf' (setData_wf (alloc_wf' h ha)) hfr
 
+theorem calloc_wf' {s s' : Xma} {n : Nat} {r : Option Nat} (h : WF s) (hc : calloc s n = .ok (r, s')) : WF s' := by
+  unfold calloc at hc
+  split at hc
+  · simp at hc
+  · rename_i s1 ha
+    simp only [Except.ok.injEq, Prod.mk.injEq] at hc
+    obtain ⟨_, rfl⟩ := hc
+    exact alloc_wf' h ha
+  · rename_i o s1 ha
+    simp only [Except.ok.injEq, Prod.mk.injEq] at hc
+    obtain ⟨_, rfl⟩ := hc
+    exact setData_wf (alloc_wf' h ha)
+
 theorem step_wf {s : Xma} (h : WF s) (op : Op) : WF (step s op) := by
   cases op with
+  | calloc n =>
+    simp only [step]
+    split
+    · rename_i r s' ha; exact calloc_wf' h ha
+    · exact h
   | alloc n =>
     simp only [step]
     split
@@ -1084,7 +1096,7 @@ theorem run_wf {s : Xma} (h : WF s) (ops : List Op) : WF (run s ops) := by
 
 /-! ### init -/
 
-theorem initx_wf {z : Nat} (hz1 : z % ALIGN = 0) (hz2 : FBLKMIN ≤ z) :
+theorem initx_wf {z : Nat} (hz2 : FBLKMIN ≤ z) :
     ∃ s, initx z = some s ∧ WF s ∧ s.zone = z ∧ s.blks = [{ size := z - HDR, free := true, prev := 0 }] := by
   unfold initx
   rw [if_neg (by omega)]
@@ -1095,7 +1107,7 @@ theorem initx_wf {z : Nat} (hz1 : z % ALIGN = 0) (hz2 : FBLKMIN ≤ z) :
   constructor
   · simp only [total_cons, total_nil, FBLKMIN, HDR, MINALLOC] at *; omega
   · simp only [ChainOK, FBLKMIN, HDR, MINALLOC, ALIGN] at *
-    refine ⟨trivial, by simp, by omega, by omega, trivial⟩
+    refine ⟨trivial, by simp, trivial, by omega, trivial⟩
   · simp
   · intro i
     by_cases hj : getxfi (z - HDR) = i
@@ -1156,19 +1168,34 @@ theorem live_disjoint {c : Nat} {l : List Blk} {x y : Nat × Nat × List Nat} (h
       split at hy <;> simp at hy; subst hy; simp at this ⊢; omega
     · exact ih hx hy
 
-/-- a live block of a well-formed chain starts at a multiple of ALIGN -/
-theorem live_aligned {ps : Nat} {pf : Bool} {l : List Blk} {c : Nat} {x : Nat × Nat × List Nat} (h : ChainOK ps pf l)
-    (hc : c % ALIGN = 0) (hx : x ∈ liveOffs c l) : x.1 % ALIGN = 0 ∧ x.2.1 % ALIGN = 0 ∧ MINALLOC ≤ x.2.1 := by
+/-- a live block of a well-formed chain starts at a multiple of ALIGN and has at least MINALLOCSIZE bytes -/
+theorem live_aligned {ps : Nat} {pf : Bool} {l : List Blk} {c : Nat} {x : Nat × Nat × List Nat} (h : ChainOK c ps pf l)
+    (hx : x ∈ liveOffs c l) : x.1 % ALIGN = 0 ∧ MINALLOC ≤ x.2.1 := by
   induction l generalizing c ps pf with
   | nil => simp at hx
   | cons a l ih =>
     rw [liveOffs_cons] at hx
     simp only [List.mem_append, ChainOK] at hx h
     rcases hx with hx | hx
-    · split at hx <;> simp at hx; subst hx; exact ⟨hc, h.2.2.1, h.2.2.2.1⟩
-    · refine ih h.2.2.2.2 ?_ hx
-      have := h.2.2.1
-      simp only [ALIGN, HDR] at *; omega
+    · split at hx <;> simp at hx; subst hx; exact ⟨h.2.2.1, h.2.2.2.1⟩
+    · exact ih h.2.2.2.2 hx
+
+/-- a live block ends at a multiple of ALIGN or at the end of the chain -/
+theorem live_end {ps : Nat} {pf : Bool} {l : List Blk} {c : Nat} {x : Nat × Nat × List Nat} (h : ChainOK c ps pf l)
+    (hx : x ∈ liveOffs c l) : (x.1 + HDR + x.2.1) % ALIGN = 0 ∨ x.1 + HDR + x.2.1 = c + total l := by
+  induction l generalizing c ps pf with
+  | nil => simp at hx
+  | cons a l ih =>
+    rw [liveOffs_cons] at hx
+    simp only [List.mem_append, ChainOK] at hx h
+    rcases hx with hx | hx
+    · split at hx <;> simp at hx; subst hx
+      cases l with
+      | nil => right; simp; omega
+      | cons b l => left; have := h.2.2.2.2; simp only [ChainOK] at this; exact this.2.2.1
+    · rcases ih h.2.2.2.2 hx with e | e
+      · exact Or.inl e
+      · right; simp; omega
 
 /-- an offset cannot address a free and a live block at once -/
 theorem free_live_offsets {c : Nat} {l : List Blk} {p : Nat × Nat} {x : Nat × Nat × List Nat}
